@@ -457,21 +457,23 @@ func (m *M) evalTerm(t *gojq.Term, e *env, in PV, emit func(PV) error) error {
 		case s.Iter:
 			return m.evalTerm(&head, e, in, func(w PV) error { return m.iterate(w, emit) })
 		case s.Optional:
-			// `t s1…sn ?` wraps only the last index/iterate suffix
+			// `t s1…sn ?` makes only the last index/iterate step optional. For an index step `t[k]?` the index
+			// expressions are evaluated against the input of the whole term, exactly as in `t[k]` (jq: subexp(k), t,
+			// INDEX_OPT), and the errors of t and k are not intercepted.
 			if k := len(head.SuffixList); k > 0 {
 				last := head.SuffixList[k-1]
-				if last.Index != nil || last.Iter {
-					hh := head
-					hh.SuffixList = head.SuffixList[:k-1]
+				hh := head
+				hh.SuffixList = head.SuffixList[:k-1]
+				if last.Index != nil {
+					return m.evalIndexOpt(&hh, last.Index, e, in, emit, true)
+				}
+				if last.Iter {
 					return m.evalTerm(&hh, e, in, func(w PV) error {
-						return m.try(func(em func(PV) error) error {
-							if last.Iter {
-								return m.iterate(w, em)
-							}
-							return m.evalIndex(&gojq.Term{Type: gojq.TermTypeIdentity}, last.Index, e, w, em)
-						}, nil, e, w, emit)
+						return m.try(func(em func(PV) error) error { return m.iterate(w, em) }, nil, e, w, emit)
 					})
 				}
+			} else if head.Type == gojq.TermTypeIndex {
+				return m.evalIndexOpt(&gojq.Term{Type: gojq.TermTypeIdentity}, head.Index, e, in, emit, true)
 			}
 			return m.try(func(em func(PV) error) error { return m.evalTerm(&head, e, in, em) }, nil, e, in, emit)
 		}
@@ -645,13 +647,25 @@ func (m *M) iterate(w PV, emit func(PV) error) error {
 // evalIndex evaluates head[index]: index expressions in value mode, outer
 // loops; the head is navigated in the current mode.
 func (m *M) evalIndex(head *gojq.Term, x *gojq.Index, e *env, in PV, emit func(PV) error) error {
+	return m.evalIndexOpt(head, x, e, in, emit, false)
+}
+
+// evalIndexOpt: index expressions first (outermost loops), then the indexed term, then the navigation step, which is
+// the only part under `try` when opt is set.
+func (m *M) evalIndexOpt(head *gojq.Term, x *gojq.Index, e *env, in PV, emit func(PV) error, opt bool) error {
 	nav := func(key any) error {
 		return m.evalTerm(head, e, in, func(w PV) error {
-			out, err := m.navigate(w, key)
-			if err != nil {
-				return err
+			step := func(em func(PV) error) error {
+				out, err := m.navigate(w, key)
+				if err != nil {
+					return err
+				}
+				return em(out)
 			}
-			return emit(out)
+			if opt {
+				return m.try(step, nil, e, w, emit)
+			}
+			return step(emit)
 		})
 	}
 	vin := valueMode(in)
